@@ -274,11 +274,39 @@ EXTRA3 = {
 }
 
 
+# round 8
+EXTRA4 = {
+    'C03': ' Round 8: a wait loop of recv() is left early only with a result (C03.R9), retries strictly below the configured '
+           'maximum (C03.R19); via the call graph: arbitration state pair and SYN counter (C03.H19/H20).',
+    'C04': ' Round 8: via the call graph: arbitration state pair and SYN counter of an unanswered start (C04.H19/H20).',
+    'C05': ' Round 8: one invalid marker of the 16 bit float for decoder and encoder over all patterns (C05.R11); every instance '
+           'of the calendar quotients carries its offset (C05.R6).',
+    'C06': ' Round 8: one century for the two-digit year (C06.R13); via the call graph: the built-in type table (C06.H17).',
+    'C07': ' Round 8: results of checkValueRange compared for (in)equality with RESULT_OK (C07.R11); via the call graph: the '
+           'built-in type table (C07.H17).',
+    'C02': ' Round 8: via the call graph: state-entry resets of setState (C02.H18).',
+    'C09': ' Round 8 / reading: a store in a loop depends on the iteration (C09.R14, found a genuine defect).',
+    'C10': ' Round 8: the bookkeeping behind a field is unconditional in all four walkers (C10.R1).',
+    'C12': ' Round 8: an out-parameter is assigned before bytes are accumulated into it (C12.R8).',
+    'C13': ' Round 8: an optional name is tested on itself (C13.R12); a fetched default is not stored into a dead variable '
+           '(C13.R11, found a genuine defect).',
+    'C14': ' Round 8: a pending symbol is never cleared or overwritten (C14.R11, found a genuine defect); arbitration state pair '
+           '(C14.R12); second byte classification for all 256 values (C14.R13); bounded counter progress (C14.R14).',
+    'C15': ' Round 8: via the call graph: state-entry resets of setState (C15.H18).',
+    'C16': ' Round 8: the level list of an ACL line is stored unconditionally (C16.R12).',
+    'C17': ' Round 8: a message used by a condition is queued (C17.R7); polled messages start at the current high-water mark '
+           '(C17.R6, found a genuine defect).',
+    'C18': ' Round 8: template part kinds are tested by sign only (C18.R14).',
+    'C19': ' Round 8: the priority digit is written exactly for 1..9 (C19.R11).',
+    'C20': ' Round 8: close() forgets the buffered bytes (C20.R19); via the call graph: arbitration pair and counter (C20.H19/H20).',
+}
+
+
 def main():
     checks = []
     for pid in sorted(CHECKS):
         c = dict(CHECKS[pid])
-        c['text'] = c['text'] + EXTRA.get(pid, '') + EXTRA2.get(pid, '') + EXTRA3.get(pid, '')
+        c['text'] = c['text'] + EXTRA.get(pid, '') + EXTRA2.get(pid, '') + EXTRA3.get(pid, '') + EXTRA4.get(pid, '')
         if pid in ('C01', 'C02', 'C03', 'C05', 'C06', 'C07', 'C08', 'C09', 'C10', 'C11', 'C13', 'C14', 'C15', 'C19', 'C20'):
             c['technique'] += '; finite evaluation of inline accessors / conditions from the typed AST on enumerated model states'
         checks.append({
